@@ -107,6 +107,10 @@ let s_dberr (r : 'a res) : string = match r with
 let rec drop_int k l = if k = 0 then l else match l with [] -> [] | _ :: r -> drop_int (k - 1) r
 let rec first_n k l = if k = 0 then [] else match l with [] -> [] | x :: r -> x :: first_n (k - 1) r
 
+(* an id as shown in query answers: its first and its last four bytes *)
+let id_abbrev (id : n list) : string =
+  let k = List.length id in hex_of_bytes (first_n 4 id) ^ hex_of_bytes (drop_int (max 0 (k - 4)) id)
+
 type hist = { mutable st : db; mutable ast : astate; mutable offsets : n list; names : n list list;
               mutable bm : (int * emap) option   (* the byte-level map of the first k log entries (LogBytes.v), cached *) }
 
@@ -160,7 +164,7 @@ let db_op (h : hist) (t : toks) : string =
       (match find_events h.st f scr now allow lim secs with
        | Ok (evs, red) ->
            Printf.sprintf "ok [%s] red=%s"
-             (String.concat "," (List.map (fun (e : aevent) -> hex_of_bytes (first_n 4 e.e_id)) evs)) (s_bool red)
+             (String.concat "," (List.map (fun (e : aevent) -> id_abbrev e.e_id) evs)) (s_bool red)
        | r -> s_dberr r)
   | "reopen" -> h.st <- reopen h.st; "ok"
   | "map" -> (match current_map h with Some m -> "map " ^ map_digest m.file | None -> "map REPLAY-FAILED")
@@ -227,7 +231,7 @@ let spec_op (h : hist) (t : toks) : string =
         | Some 1 -> SMismatch | Some 2 -> SRedacted | _ -> SMatch in
       let q = a_qualifying h.ast f scr in
       Printf.sprintf "q [%s] redactable=%s limit=%s refusable=%s"
-        (String.concat "," (List.map (fun (e : aevent) -> dec_of_n e.e_created ^ ":" ^ hex_of_bytes (first_n 4 e.e_id)) q))
+        (String.concat "," (List.map (fun (e : aevent) -> dec_of_n e.e_created ^ ":" ^ id_abbrev e.e_id) q))
         (s_bool (a_redactable h.ast f scr)) (dec_of_n f.f_limit)
         (s_bool (is_scrape f && not (scrape_covered f now allow lim secs)))
   | "reopen" -> "ok"
